@@ -53,6 +53,9 @@ type params struct {
 	slowStop bool
 	// scripted consumer behaviour per generation instead of an explorer choice (for default-schedule scenarios)
 	genAct []int
+	// "send all at end" mode of NewBufferer with a usable directory (test agents, recovery tools): Destroy first waits for the
+	// consumer to confirm everything, and only what is still unconfirmed after the shutdown time-out is saved
+	sendAll bool
 	// state keys off (large files / large backlogs: the environment hash walks the directory at every choice point)
 	noStateKeys bool
 }
@@ -389,7 +392,7 @@ func drive(w *world) explore.Verdict {
 	exactDrops := p.queueCap >= totalChunks
 	for g, sizes := range p.gens {
 		mf := promreg.NewMetricFactory(fmt.Sprintf("g%d_", g), nil, nil)
-		buf := cfg.NewBufferer(logger.Root(), "q1", matchChunkID, mf, false)
+		buf := cfg.NewBufferer(logger.Root(), "q1", matchChunkID, mf, p.sendAll)
 		w.qdir = buf.(interface{ QueueDirPath() string }).QueueDirPath()
 		sabotageID := ""
 		if g == 0 && p.prefill > 0 {
@@ -688,7 +691,7 @@ func drive(w *world) explore.Verdict {
 		// directory; without one (send-all mode) BufferShutDownTimeout for the pending chunks (polled every 50 ms) and then
 		// 2 x IntermediateChannelTimeout
 		bound := defs.BufferShutDownTimeout + defs.IntermediateChannelTimeout
-		if !p.dirOK {
+		if !p.dirOK || p.sendAll {
 			bound = defs.BufferShutDownTimeout + defs.IntermediateChannelTimeout*2 + 100*time.Millisecond
 		}
 		if took > bound {
@@ -801,6 +804,14 @@ func scenarios() []*explore.Scenario {
 		l.gens = [][]int{{1, 1, 1, 1, 1, 1, 1, 1, 1}}
 		l.name = fmt.Sprintf("nodir/mem%d/long", mem)
 		add(l, 1, 2)
+	}
+	// "send all at end" mode with a usable directory: the consumer may stall or hang through the shutdown with the output channel
+	// full and the feeder holding one more chunk; whatever is unconfirmed when the wait is over must still be saved
+	for _, mem := range []int{2, 4} {
+		sa := params{memCap: mem, queueCap: 50, maxBuf: 1000, dirOK: true, consumerAlt: 5, sendAll: true}
+		sa.gens = [][]int{{1, 1, 1, 1, 1, 1, 1}, {1}}
+		sa.name = fmt.Sprintf("sendall/mem%d", mem)
+		add(sa, 1, 2)
 	}
 	// a queue directory found at startup: chunk files of an earlier life, with the stale temporary file of an interrupted save
 	// in front of / between / behind them (the process was killed while saving an older in-memory chunk after newer ones
